@@ -35,6 +35,38 @@ class Broken(Exception):
     """The machinery (not the library) failed: exit 2."""
 
 
+class LibraryCrash(Exception):
+    """The replayer process was killed by a panic raised inside the library on a goroutine the
+    replayer cannot guard (server handlers, reader goroutines) - twice in a row. That is behaviour
+    of the real code, hence a verdict (exit 1), not a failure of the machinery."""
+
+    def __init__(self, stage, what):
+        Exception.__init__(self, what)
+        self.stage = stage
+        self.what = what
+
+
+def library_panic(stderr):
+    """Returns a description if stderr shows a Go panic whose innermost non-runtime frame is in the library."""
+    if not stderr or "panic:" not in stderr and "fatal error:" not in stderr:
+        return None
+    lines = stderr.splitlines()
+    start = next((i for i, l in enumerate(lines) if l.startswith("panic:") or l.startswith("fatal error:")), None)
+    if start is None:
+        return None
+    for l in lines[start + 1:]:
+        m = re.match(r"^([\w./\-]+)\.[\w().*\[\]]+\(", l.strip())
+        if not m:
+            continue
+        pkg = m.group(1)
+        if pkg.startswith("github.com/ossrs/go-oryx-lib"):
+            return lines[start].strip() + " in " + l.strip()[:160]
+        if pkg == "main" or pkg.startswith("main.") or pkg.startswith("verifharness"):
+            return None   # the harness itself (or the standard library called directly by it) panicked
+        # standard library / runtime frames: keep looking for who called them
+    return None
+
+
 def log(*a):
     print("[vcheck]", *a, file=sys.stderr, flush=True)
 
@@ -254,6 +286,13 @@ class Ctx:
         r = subprocess.run(cmd, env=env, stdout=subprocess.PIPE, stderr=subprocess.PIPE, text=True)
         self.last_stderr = r.stderr
         if r.returncode != 0:
+            lp = library_panic(r.stderr)
+            if lp:
+                r2 = subprocess.run(cmd, env=env, stdout=subprocess.PIPE, stderr=subprocess.PIPE, text=True)
+                lp2 = library_panic(r2.stderr) if r2.returncode != 0 else None
+                if lp2:
+                    raise LibraryCrash(name, "the library panicked on a goroutine outside the replayer's guard and killed the process (twice): %s\n%s"
+                                       % (lp2, r2.stderr[-1500:]))
             raise Broken("replayer %s died rc=%s: %s" % (name, r.returncode, (r.stderr or r.stdout)[-3000:]))
         res = [json.loads(l) for l in open(outp) if l.strip()]
         log("replay %-20s cases=%d fails=%d %.1fs" % (name, len(res), sum(1 for x in res if not x["ok"]), time.time() - t0))
